@@ -70,3 +70,19 @@ Example vbc_nonvacuous :
                ap_nodes := [{| s_id := 0; s_ok := true |}; {| s_id := 2; s_ok := true |}; {| s_id := 3; s_ok := true |}];
                ap_seed_nonempty := true; ap_seed_ok := true |}) false = true.
 Proof. reflexivity. Qed.
+
+(* the weight clause in terms of the specification's Q and f (QuorumFacts): with W the committee's total weight,
+   f = floor((W-1)/3), Q = W - f, the accepted signers weigh at least Q (strict) or more than f (soft) *)
+From LH Require Import QuorumFacts.
+Theorem vbc_weight_spec c b p cm soft : cert_spec c b p cm soft -> total cm < W64 ->
+  if soft then 0 < total cm -> (specF cm < Z.of_N (wsum (fun i => memN i (map s_id (ap_nodes p))) cm))%Z
+  else (specQ cm <= Z.of_N (wsum (fun i => memN i (map s_id (ap_nodes p))) cm))%Z.
+Proof.
+  intros CS Hw. pose proof (cs_weight _ _ _ _ _ CS) as Wt. destruct soft.
+  - intro H0. apply (hasH_spec _ _ Hw H0). exact Wt.
+  - apply (isQ_spec _ _ Hw). exact Wt.
+Qed.
+
+(* the function is total: every input yields a verdict; unreadable bytes and every failed check yield "error" *)
+Theorem vbc_rejects_unreadable c cc blk pe soft : vbc c cc blk pe None soft = false.
+Proof. unfold vbc. destruct cc, blk, pe; reflexivity. Qed.
